@@ -119,6 +119,19 @@ def key_of(e, selfname="self"):
     return U(e)
 
 
+def _tuple_elts(e):
+    """Elements of a tuple expression built from literals and `+`."""
+    if e is None:
+        return None
+    if isinstance(e, ast.Tuple):
+        return list(e.elts)
+    if isinstance(e, ast.BinOp) and isinstance(e.op, ast.Add):
+        a, b = _tuple_elts(e.left), _tuple_elts(e.right)
+        if a is not None and b is not None:
+            return a + b
+    return None
+
+
 class _Signal(Exception):
     pass
 
@@ -390,9 +403,8 @@ class Interp:
     def percent(self, a, b, bexpr):
         if not isinstance(a, Str):
             return UNKNOWN
-        if isinstance(bexpr, ast.Tuple):
-            exprs = list(bexpr.elts)
-        else:
+        exprs = _tuple_elts(bexpr)
+        if exprs is None:
             exprs = [bexpr]
         toks = []
         i = 0
@@ -435,12 +447,28 @@ class Interp:
                     toks.append(("L", "%"))
                     continue
                 if i < len(exprs):
-                    toks.append(("V", key_of(exprs[i], self.selfname)))
+                    toks.extend(self._fmt_value(exprs[i]))
                 else:
                     toks.append(("V", "?"))
                 i += 1
             toks.append(("L", t[1][pos:]))
         return Str(toks)
+
+    def _fmt_value(self, e):
+        """Tokens a formatted argument contributes."""
+        if isinstance(e, (ast.BinOp, ast.JoinedStr, ast.Constant)) or (
+                isinstance(e, ast.Call) and isinstance(
+                    e.func, ast.Attribute) and e.func.attr == "format"):
+            v = self.eval(e, getattr(self, "_cur_env", {}))
+            if isinstance(v, Str):
+                return list(v.toks)
+        if isinstance(e, ast.Name):
+            v = getattr(self, "_cur_env", {}).get(e.id)
+            if isinstance(v, Str):
+                return list(v.toks)
+            if isinstance(v, Val):
+                return [("V", v.key)]
+        return [("V", key_of(e, self.selfname))]
 
     def brace(self, a, call, env):
         if not isinstance(a, Str):
@@ -482,6 +510,7 @@ class Interp:
         return Str(toks)
 
     def eval(self, e, env):
+        self._cur_env = env
         if isinstance(e, ast.Constant):
             if isinstance(e.value, str):
                 return lit(e.value)
